@@ -941,7 +941,12 @@ class Tensor:
             # back-propagated to the view itself
             return self._grad
 
-        if self._view_grad is not None and self._view_grad.base is self._base._grad:
+        if self._view_grad is not None and (
+            self._view_grad.base is self._base._grad
+            # the view-op can return its input array itself
+            # (e.g. squeezing an array that has no size-1 axis)
+            or self._view_grad is self._base._grad
+        ):
             # view grad has been computed already
             return self._view_grad
 
